@@ -585,7 +585,7 @@ impl<'a> Resolver<'a> {
                         as_var = true;
                     }
                     let value = if as_var {
-                        FVal::Var(self.fresh("v"), lit)
+                        FVal::Var(self.fresh("vq"), lit)
                     } else {
                         FVal::Lit(lit)
                     };
@@ -697,7 +697,7 @@ impl<'a> Resolver<'a> {
                             as_var = false;
                         }
                         values.push(if as_var {
-                            FVal::Var(self.fresh("p"), lit)
+                            FVal::Var(self.fresh("pq"), lit)
                         } else {
                             FVal::Lit(lit)
                         });
